@@ -1053,6 +1053,8 @@ class Interp:
             return Num(nf.fn("[]", self.to_nf(base), self.to_nf(idx)))
         bn = self.to_nf(base)
         hk = (nf.key(bn), nf.key(self.to_nf(idx)))
+        if isinstance(idx, StrV):
+            self.log("read_sub", node, base=base, key=idx.s, stored=hk in self.heap)
         if hk in self.heap:
             return self.heap[hk]
         return Num(self._sub_atom(bn, idx))
